@@ -148,3 +148,43 @@ Theorem c01_exact_on_rendered_core_with_expressions : forall noise e s,
   stmt_writes (analyze e false (r_stmt_x noise s)) = sort_strings (spec_writes (e_cfg e) s).
 Proof. exact lemma_A_tables_x. Qed.
 Print Assumptions c01_exact_on_rendered_core_with_expressions.
+
+(** * COPY and file paths (C01: "the base tables and file paths the statement reads") - Ast/SpecPath.v, Tree/RenderPath.v,
+    Tree/LemmaAPath.v: COPY t [(cols)] FROM 'path' (postgres / redshift layout), COPY INTO t FROM @stage | 's3://..' (snowflake),
+    SELECT .. FROM fmt.`path` (sparksql file reference).  Exact under [pstmt_ok], whose path clause [path_ok] is the weakest
+    possible: the proof attempt found that a path is normalised like an identifier, TWICE, so upper-case letters are lost
+    (K-C01-8: copy t from '/tmp/Data/X.CSV' reports /tmp/data/x.csv).  INSERT OVERWRITE DIRECTORY: tested, not proved. *)
+From SV Require Import Ast.SpecPath Tree.RenderPath Tree.LemmaAPathDefs Tree.LemmaAPath.
+Theorem c01_exact_on_copy_and_file_references : forall noise e p,
+  noise_ok noise = true -> env_ok e = true -> pstmt_ok p = true -> is_insert_dir p = false ->
+  stmt_reads (analyze e false (r_pstmt noise p)) = sort_strings (p_reads (e_cfg e) p) /\
+  stmt_writes (analyze e false (r_pstmt noise p)) = sort_strings (p_writes (e_cfg e) p).
+Proof. exact lemma_A_path. Qed.
+Print Assumptions c01_exact_on_copy_and_file_references.
+
+Theorem c01_refuted_path_case : ~ lemma_A_path_statement pstmt_ok_nopath.
+Proof. exact lemma_A_path_case_refuted. Qed.
+Print Assumptions c01_refuted_path_case.
+
+(** * CTE chains of any length (one WITH clause with several comma-separated CTEs, as the parser lays it out: Tree/RenderChain.v),
+    over definitions and a body of the WITH-free fragment with expression items.  The guards exclude two disagreements found by the
+    proof attempt, both replayed on the implementation: a definition reading a table called like a LATER CTE (K-C01-9: every name is
+    resolved against all CTEs of the clause) and two CTEs with the same text (K-C01-10: the second one's name is reported as a table). *)
+From SV Require Import Tree.RenderChain Tree.LemmaAChain.
+Theorem c01_exact_on_cte_chains : forall noise e s,
+  noise_ok noise = true -> env_ok e = true -> stmt_ok_c noise s = true ->
+  stmt_reads (analyze e false (r_stmt_c noise s)) = sort_strings (spec_reads (e_cfg e) s) /\
+  stmt_writes (analyze e false (r_stmt_c noise s)) = sort_strings (spec_writes (e_cfg e) s).
+Proof. exact lemma_A_tables_chain. Qed.
+Print Assumptions c01_exact_on_cte_chains.
+
+Theorem c01_cte_chains_unguarded_refuted : ~ lemma_Ac_unguarded.
+Proof. exact lemma_Ac_unguarded_refuted. Qed.
+Print Assumptions c01_cte_chains_unguarded_refuted.
+
+(** * Parenthesised join groups (Tree/RenderGroup.v): the table-level statement is FALSE - in a comma-separated FROM the table joined
+    inside a group is lost (K-C01-11, same SQL-89 branch as K-C01-1); the guarded statement is tested, not proved. *)
+From SV Require Import Tree.RenderGroup Tree.LemmaAGroup.
+Theorem c01_join_groups_refuted : ~ lemma_A_group_statement.
+Proof. exact lemma_A_group_statement_refuted. Qed.
+Print Assumptions c01_join_groups_refuted.
